@@ -111,7 +111,7 @@ def thorough(ctx, rep, prop, mod):
                     meta = json.load(open(m))
                 except Exception:
                     continue
-                if prop in meta.get("check", [meta.get("property")]):
+                if prop in meta.get("check", [meta.get("property")]) and os.path.exists(os.path.join(os.path.dirname(m), "patch.diff")):
                     dirs.append(os.path.dirname(m))
         env = dict(os.environ, PFA_NO_SELFTEST="1")
         from concurrent.futures import ThreadPoolExecutor
